@@ -100,11 +100,48 @@ func (fe *glslFE) builtinType(w string) (*Type, bool) {
 	return nil, false
 }
 
+// glslIsExtensionType reports type names that exist only with an extension
+// (GL_ARB_gpu_shader_int64, GL_EXT_shader_explicit_arithmetic_types_*,
+// GL_AMD_gpu_shader_half_float, GL_NV_gpu_shader5 ...).
+func glslIsExtensionType(w string) bool {
+	for _, p := range []string{"int8_t", "int16_t", "int32_t", "int64_t", "uint8_t", "uint16_t", "uint32_t", "uint64_t", "float16_t", "float32_t", "float64_t"} {
+		if w == p {
+			return true
+		}
+	}
+	for _, p := range []string{"i8vec", "i16vec", "i32vec", "i64vec", "u8vec", "u16vec", "u32vec", "u64vec", "f16vec", "f32vec", "f64vec", "f16mat", "f32mat", "f64mat"} {
+		if strings.HasPrefix(w, p) && len(w) > len(p) && w[len(p)] >= '2' && w[len(p)] <= '4' {
+			return true
+		}
+	}
+	return false
+}
+
+// extensionFeature raises the right error for a construct that needs an
+// arithmetic-type extension: UnsupportedError when the text enables one,
+// InvalidError otherwise.
+func (fe *glslFE) extensionFeature(p *parser, pos Pos, what string) {
+	for _, e := range p.prog.Extensions {
+		if strings.HasSuffix(e, ":disable") {
+			continue
+		}
+		for _, k := range []string{"int64", "explicit_arithmetic", "gpu_shader5", "half_float", "int16", "16bit_storage", "8bit_storage", "float16"} {
+			if strings.Contains(e, k) {
+				pos.unsupported(GLSL, "%s (extension %s)", what, e)
+			}
+		}
+	}
+	pos.invalid(GLSL, "extension", "%s requires an extension that the text does not enable with #extension", what)
+}
+
 func (fe *glslFE) isTypeStart(p *parser, t Token) bool {
 	if t.Kind != TIdent {
 		return false
 	}
 	if t.Text == "struct" {
+		return true
+	}
+	if glslIsExtensionType(t.Text) && !p.varScopes[len(p.varScopes)-1][t.Text] {
 		return true
 	}
 	if _, ok := fe.builtinType(t.Text); ok {
@@ -176,6 +213,10 @@ func (fe *glslFE) numberLit(p *parser, t Token) Expr {
 			// doubles are type-checked only; the cell keeps the float32 image
 			return &Lit{ExprBase: ExprBase{Pos: t.Pos}, V: Value{T: tDouble, C: []Cell{f32Cell(float32(f))}}}
 		}
+		switch strings.ToLower(t.Suffix) {
+		case "hf":
+			fe.extensionFeature(p, t.Pos, "half-precision literal "+t.String())
+		}
 		t.Pos.invalid(GLSL, "syntax", "bad suffix on floating literal %q", t.String())
 	}
 	typ := tInt
@@ -187,6 +228,10 @@ func (fe *glslFE) numberLit(p *parser, t Token) Expr {
 		}
 		typ = tUint
 	default:
+		switch strings.ToLower(t.Suffix) {
+		case "l", "ul", "lu", "s", "us":
+			fe.extensionFeature(p, t.Pos, "sized integer literal "+t.String())
+		}
 		t.Pos.invalid(GLSL, "syntax", "bad suffix on integer literal %q", t.String())
 	}
 	body := t.Text
@@ -247,6 +292,9 @@ func (fe *glslFE) parseTypeSpec(p *parser) *TypeExpr {
 		tx.Name = tx.Struct.Name
 	default:
 		if _, ok := fe.builtinType(t.Text); !ok && !p.isTypeName(t.Text) {
+			if glslIsExtensionType(t.Text) {
+				fe.extensionFeature(p, t.Pos, "type "+t.Text)
+			}
 			if fe.reserved[t.Text] {
 				t.Pos.invalid(GLSL, "syntax", "expected a type, found keyword %q", t.Text)
 			}
@@ -411,6 +459,9 @@ func (fe *glslFE) parsePrimary(p *parser) Expr {
 	}
 	_, builtin := fe.builtinType(t.Text)
 	if !builtin && !p.isTypeName(t.Text) {
+		if glslIsExtensionType(t.Text) && p.peekN(1).Kind == TPunct && (p.peekN(1).Text == "(" || p.peekN(1).Text == "[") {
+			fe.extensionFeature(p, t.Pos, "type "+t.Text)
+		}
 		return nil
 	}
 	// constructor: type_specifier ( args )
@@ -556,6 +607,15 @@ func (fe *glslFE) parseTranslationUnit(p *parser) []*topDecl {
 		if p.accept(";") {
 			continue
 		}
+		if fe.version < 300 {
+			// a later #version line is the real error; look for it first
+			for _, tk := range p.toks[p.i:] {
+				if tk.Kind == TDirective && strings.HasPrefix(tk.Text, "version") {
+					tk.Pos.invalid(GLSL, "syntax", "#version must be the first directive and precede everything but comments and white space")
+				}
+			}
+			fe.checkVersionSupported(t.Pos)
+		}
 		if d := fe.parseExternalDecl(p); d != nil {
 			decls = append(decls, d)
 		}
@@ -564,6 +624,13 @@ func (fe *glslFE) parseTranslationUnit(p *parser) []*topDecl {
 		fe.setVersion(p, Pos{1, 1}, 110, "")
 	}
 	return decls
+}
+
+// checkVersionSupported is called before any declaration is parsed.
+func (fe *glslFE) checkVersionSupported(pos Pos) {
+	if !fe.atLeast(330, 300) {
+		pos.unsupported(GLSL, "GLSL versions below 3.30 / ESSL 3.00 are not modelled")
+	}
 }
 
 func (fe *glslFE) setVersion(p *parser, pos Pos, v int, profile string) {
@@ -576,9 +643,6 @@ func (fe *glslFE) setVersion(p *parser, pos Pos, v int, profile string) {
 		}
 	} else if !glslDesktopVersions[v] {
 		pos.invalid(GLSL, "version", "unknown GLSL version %d", v)
-	}
-	if !fe.atLeast(330, 300) {
-		pos.unsupported(GLSL, "GLSL versions below 3.30 / ESSL 3.00 are not modelled")
 	}
 	fe.reserved = glslReservedSet(v, fe.es)
 	p.prog.Version = v
